@@ -3,11 +3,12 @@
 Pipeline (see DESIGN.md section 6 C07, specs/OffsetsFile.tla, OffsetsFormat.tla, OffsetsFileTrace.tla):
 
  1. TLC, design level (run in parallel):
-      OffsetsFile   residual  (code as it is, every fault; properties on all behaviours in which no named
-                               deviation fired)                                      must PASS, exports schedules
-                    faithful  (Unconditional)  must be VIOLATED: the counterexample is D6 (file) / D7 (generic)
-                    fixed     (deviation off, Unconditional)                          must PASS
-      OffsetsFormat residual + ModelD8 must PASS (exports every job table), faithful must be VIOLATED (D8)
+      OffsetsFile   faithful (the code as it is now: D6 repaired by f12db3f, D7 by 5cb7036; every fault, every crash
+                              view)                                                   must PASS, exports schedules
+                    mutants  D_RenameAfterFailedStep (file), D_NoFsync (generic) = the code before the repairs:
+                              TLC MUST reject them (mechanisms "no rename after a failed step", "fsync before
+                              rename" shown necessary); the counterexample's fault schedule is among the replayed ones
+      OffsetsFormat residual + ModelD8 must PASS (exports every job table), faithful must be VIOLATED (D8, still open)
  2. (R) round trip: every exported job table is written by the real offsetDB.save and read by the real
     offsetDB.load of a fresh offsetDB; expectation = the table itself.
  3. (T) every exported schedule (commits between saves, failing steps per save) is executed by the real code
@@ -70,8 +71,8 @@ def par_tlc(ctx, jobs):
                 ctx.transitions += res.generated
             else:
                 if res.ok or res.kind != "invariant" or res.violated not in job["violates"]:
-                    raise vlib.Infra("faithful configuration %s did not produce the expected counterexample "
-                                     "(ok=%s violated=%s): the specification's deviation switch is stale\n%s"
+                    raise vlib.Infra("configuration %s did not produce the expected counterexample "
+                                     "(ok=%s violated=%s): the mutant / deviation switch no longer bites\n%s"
                                      % (job["key"], res.ok, res.violated, res.out[-2000:]))
             out[job["key"]] = res
     return out
@@ -319,7 +320,11 @@ def analyse(calls, workdir):
                 ev(op="rename", name=a or "t8", name2=b or "t8", ok=ok, call=c)
             continue
         if n in ("unlink", "unlinkat") and c["strs"]:
+            if "AT_REMOVEDIR" in c["args"] and not c["injected"]:
+                continue      # os.Remove falls back to rmdir after a failed unlink; not a file operation
             a = nm(c["strs"][0]) if started else None
+            if c["injected"]:
+                injected.append(("unlink", c, a))
             if a:
                 ev(op="unlink", name=a, ok=ok, call=c)
     if init is None or not any(e["op"] == "mark" and e["mark"][0] == "done" for e in events):
@@ -340,7 +345,7 @@ def find_targets(an, faults):
         for e in an["events"]:
             if e["window"] != win or e["op"] in ("begin", "end", "mark"):
                 continue
-            op = {"open": "open", "write": "write", "fsync": "sync", "rename": "rename", "close": "close"}.get(e["op"])
+            op = {"open": "open", "write": "write", "fsync": "sync", "rename": "rename", "close": "close", "unlink": "unlink"}.get(e["op"])
             if op == step:
                 hit = e["call"]
                 break
@@ -386,7 +391,7 @@ def run_scenario(ctx, bins, sc, idx):
         json.dump({"dir": wd, "values": sc["values"]}, open(script, "w"))
         binary, test = bins["generic"], "TestVerifC07OffsetProto"
     faults = sorted(tuple(f) for f in sc["faults"])
-    order = {"open": 0, "write": 1, "sync": 2, "close": 3 if sc["site"] == "generic" else 5, "rename": 4}
+    order = {"open": 0, "write": 1, "sync": 2, "unlink": 3, "close": 3 if sc["site"] == "generic" else 5, "rename": 4}
     faults.sort(key=lambda f: (f[0], order[f[1]]))
     runs = [0]
 
@@ -511,32 +516,29 @@ def run(ctx):
     mcfg = "OffsetsFormat_quick.cfg" if quick else "OffsetsFormat_thorough.cfg"
     gen = {"Site": '"generic"', "NJobs": "1", "NStreams": "1", "MaxCommits": "3", "MaxSaves": "3"}
     noexp = {"DoExport": "FALSE"}
-    faithful = dict(noexp, Unconditional="TRUE")
     jobs = [
-        {"key": "file/residual", "module": "OffsetsFile", "cfg": fcfg, "expect": "ok", "workers": 6, "timeout": 1500},
-        {"key": "file/faithful(D6)", "module": "OffsetsFile", "cfg": fcfg, "overrides": faithful, "expect": "violated",
+        {"key": "file/faithful", "module": "OffsetsFile", "cfg": fcfg, "expect": "ok", "workers": 6, "timeout": 1500},
+        {"key": "file/mutant(D_RenameAfterFailedStep)", "module": "OffsetsFile", "cfg": fcfg,
+         "overrides": dict(noexp, D_RenameAfterFailedStep="TRUE"), "expect": "violated",
          "violates": ("FailedStepKeepsOld", "DurableBeforeReplace", "AlwaysLoadable"), "workers": 2},
-        {"key": "file/fixed", "module": "OffsetsFile", "cfg": "OffsetsFile_quick.cfg",
-         "overrides": dict(faithful, D_RenameAfterFailedStep="FALSE"), "expect": "ok", "workers": 4},
-        {"key": "generic/residual", "module": "OffsetsFile", "cfg": "OffsetsFile_quick.cfg", "overrides": gen, "expect": "ok", "workers": 2},
-        {"key": "generic/faithful(D7)", "module": "OffsetsFile", "cfg": "OffsetsFile_quick.cfg", "overrides": dict(gen, **faithful),
-         "expect": "violated", "violates": ("DurableBeforeReplace", "AlwaysLoadable"), "workers": 2},
-        {"key": "generic/fixed", "module": "OffsetsFile", "cfg": "OffsetsFile_quick.cfg",
-         "overrides": dict(gen, D_NoFsync="FALSE", **faithful), "expect": "ok", "workers": 2},
+        {"key": "generic/faithful", "module": "OffsetsFile", "cfg": "OffsetsFile_quick.cfg", "overrides": gen, "expect": "ok", "workers": 2},
+        {"key": "generic/mutant(D_NoFsync)", "module": "OffsetsFile", "cfg": "OffsetsFile_quick.cfg",
+         "overrides": dict(gen, D_NoFsync="TRUE", **noexp), "expect": "violated",
+         "violates": ("DurableBeforeReplace", "AlwaysLoadable"), "workers": 2},
         {"key": "format/residual", "module": "OffsetsFormat", "cfg": mcfg, "expect": "ok", "workers": 4},
         {"key": "format/faithful(D8)", "module": "OffsetsFormat", "cfg": "OffsetsFormat_quick.cfg",
          "overrides": {"Unconditional": "TRUE"}, "expect": "violated", "violates": ("RoundTrip",), "workers": 2},
     ]
     tl = par_tlc(ctx, jobs)
-    file_sched = [p for p in tl["file/residual"].printed if p.get("site") == "file"]
-    gen_sched = [p for p in tl["generic/residual"].printed if p.get("site") == "generic"]
+    file_sched = [p for p in tl["file/faithful"].printed if p.get("site") == "file"]
+    gen_sched = [p for p in tl["generic/faithful"].printed if p.get("site") == "generic"]
     tables = [p for p in tl["format/residual"].printed if "jobs" in p]
     if len(file_sched) < 100 or len(gen_sched) < 20 or len(tables) < 1000:
         raise vlib.Infra("TLC exported too little: %d file schedules, %d generic schedules, %d tables"
                          % (len(file_sched), len(gen_sched), len(tables)))
-    d6_steps = cex_failed_steps(tl["file/faithful(D6)"])
-    vlib.log("TLC: %d schedules (file), %d (generic), %d tables; faithful counterexamples: D6 via failed %s, D7, D8"
-             % (len(file_sched), len(gen_sched), len(tables), sorted(d6_steps) or "?"))
+    d6_steps = cex_failed_steps(tl["file/mutant(D_RenameAfterFailedStep)"]) & {"open", "write", "sync"}
+    vlib.log("TLC: %d schedules (file), %d (generic), %d tables; both protocol mutants rejected (file mutant via a failed %s); "
+             "format counterexample D8" % (len(file_sched), len(gen_sched), len(tables), "/".join(sorted(d6_steps)) or "?"))
 
     # ---------------------------------------------------------------- 2. build
     bins = {"file": ctx.go_test_build("plugin/input/file"), "generic": ctx.go_test_build("offset")}
@@ -593,9 +595,9 @@ def run(ctx):
     # ---------------------------------------------------------------- 4. scenarios under strace (T)
     lim_f, lim_g = (90, 30) if quick else (5000, 2500)
     chosen_f, uniq_f, shapes_f = pick_schedules(ctx, file_sched, lim_f)
-    # the fault schedule of the faithful configuration's counterexample (D6) must be among the replayed ones
-    if d6_steps and not any(set(st["fails"]) == d6_steps for s in chosen_f for st in s["steps"] if st["op"] == "save"):
-        raise vlib.Infra("the D6 counterexample's fault schedule %r is not among the exported schedules" % sorted(d6_steps))
+    # the fault schedule that distinguishes the D_RenameAfterFailedStep mutant from the code must be among the replayed ones
+    if d6_steps and not any(set(st["fails"]) & {"open", "write", "sync"} == d6_steps for s in chosen_f for st in s["steps"] if st["op"] == "save"):
+        raise vlib.Infra("the mutant counterexample's fault schedule %r is not among the exported schedules" % sorted(d6_steps))
     chosen_g, uniq_g, shapes_g = pick_schedules(ctx, gen_sched, lim_g)
     scen = [file_scenario(s, False) for s in chosen_f]
     # persistence_mode=sync: every commit saves; a sample of the same schedules
@@ -664,8 +666,13 @@ def run(ctx):
     if tdrift:
         ctx.drift += len(tdrift)
         for d in tdrift[:5]:
-            vlib.log("MODEL-DRIFT: the real %s does not follow the modelled protocol at event %d of trace %d: %s while pc=%s"
-                     % (SITE_NAME[done[d["tr"]]["sc"]["site"]], d["k"], d["tr"], d["op"], d["pc"]))
+            evs = done[d["tr"]]["an"]["events"]
+            win = evs[d["k"] - 1]["window"]
+            vlib.log("MODEL-DRIFT: the real %s does not follow the modelled protocol at event %d of trace %d: %s while pc=%s; "
+                     "the window's calls: %s; injected faults %r"
+                     % (SITE_NAME[done[d["tr"]]["sc"]["site"]], d["k"], d["tr"], d["op"], d["pc"],
+                        " ".join("%s%s" % (e["op"], "" if e["ok"] else "!") for e in evs if e["window"] == win and e["op"] not in ("begin", "end", "mark")),
+                        done[d["tr"]]["sc"]["faults"]))
 
     # cross-check with the declarative expectation exported with the schedule: save k may replace the file?
     for i, r in enumerate(done):
@@ -820,13 +827,6 @@ def run(ctx):
     # ---------------------------------------------------------------- 8. classification, evidence
     ctx.classify(recs)
     kinds = {r["kind"] for r in recs}
-    if "rename_after_failed_step" not in kinds:
-        ctx.drift += 1
-        vlib.log("MODEL-DRIFT: the faithful configuration's counterexample D6 (rename after a failed %s) did not reproduce on the "
-                 "real code; the deviation switch D_RenameAfterFailedStep is stale" % "/".join(sorted(d6_steps) or ["step"]))
-    if "no_fsync_before_rename" not in kinds:
-        ctx.drift += 1
-        vlib.log("MODEL-DRIFT: D7 (offset.Save renames without fsync) did not reproduce; the deviation switch D_NoFsync is stale")
     if "unloadable_snapshot" not in kinds:
         ctx.drift += 1
         vlib.log("MODEL-DRIFT: D8 (unloadable stream/file names) did not reproduce; OffsetsFormat.tla's D8Class is stale")
@@ -865,6 +865,8 @@ def run(ctx):
         "than the synced part; rename atomic; directory entries never known durable (the code never fsyncs the directory), so after "
         "a crash the name may refer to any inode ever renamed onto it - the weakest POSIX-plausible reading; an absent offsets file "
         "loads as 'no offsets', which the scenarios' jobs never held (they start from a previous run's file)",
+        "the faithful configuration has both mutant switches off (D6 repaired by f12db3f, D7 by 5cb7036); a recurrence of either "
+        "behaviour in the real code is a VIOLATION (their known_findings entries are status=fixed)",
         "failing steps are injected by strace (error=EIO, the system call is not executed): a failing write leaves nothing in the "
         "file; PARTIAL failing writes (short write followed by an error) cannot be injected without a source hook and are covered at "
         "model level only (OffsetsFile.tla, Partials)",
